@@ -8,6 +8,9 @@
 //!        -> "<class> size=<serialized_size_in_block>"
 //!   vm <vm1_from_epoch> <vm2_from_epoch> <c|s> <epoch_packed> <hash_type>   -> v0|v1|v2|invalid-vm-version n|invalid-hash-type
 //!   dao <start_block> <pairs inDao.outDao.data(n|z|x).block(n|num).inLockArgs.outLockArgs,..>  -> ok | dao-lock-size-mismatch i
+//!   dh <header dep ids> <info block id|n> <witness m|x|b|i<k>> <cap>   -> ok <max withdraw> | invalid-out-point | invalid-dao-format | capacity-error
+//!        (one withdrawing DAO input; header id n = a header with number n and accumulated rate 10^16 + n*10^12; witness: m missing,
+//!         x not a WitnessArgs, b input_type absent or not 8 bytes, i<k> input_type = header-dep index k)
 //!   ctx <ins p<cap>|d<cap>|m<cap>|w<cap>.<deposit_ar>.<withdraw_ar>.<ordered>,..> <output caps>  -> ok <fee> | cap <class> | fee-error
 use crate::common::*;
 use ckb_chain_spec::consensus::{Consensus, ConsensusBuilder};
@@ -412,6 +415,125 @@ fn exec_ctx(t: &[&str], line: &str, out: &mut Out) {
     }
 }
 
+fn dh_header(id: u64) -> HeaderView {
+    HeaderBuilder::default()
+        .number(id)
+        .epoch(EpochNumberWithFraction::new(1, 0, 10))
+        .dao(pack_dao_data(10_000_000_000_000_000 + id * 1_000_000_000_000, Capacity::zero(), Capacity::zero(), Capacity::zero()))
+        .nonce(id as u128 + 77)
+        .build()
+}
+
+/// `DaoCalculator::transaction_fee` (= `transaction_maximum_withdraw`, no outputs) on ONE withdrawing
+/// input with every witness / header-dep shape
+fn exec_dh(t: &[&str], line: &str, out: &mut Out) {
+    let consensus = Arc::new(ConsensusBuilder::default().build());
+    let hds: Vec<u64> = plist(t[1]).iter().map(|s| pnum(s)).collect();
+    let info: Option<u64> = if t[2] == "n" { None } else { Some(pnum(t[2])) };
+    let wit = t[3];
+    let cap = pnum(t[4]);
+    let mut headers: HashMap<Byte32, HeaderView> = HashMap::new();
+    let mut tb = TransactionBuilder::default().input(CellInput::new(op_of(1, 0), 0));
+    for id in hds.iter().chain(info.iter()) {
+        let h = dh_header(*id);
+        headers.insert(h.hash(), h);
+    }
+    for id in &hds {
+        tb = tb.header_dep(dh_header(*id).hash());
+    }
+    let input_type = |bytes: Vec<u8>| WitnessArgs::new_builder().input_type(Some(Bytes::from(bytes)).pack()).build().as_bytes();
+    let variant = (pnum(t[4]) % 2) as usize; // two encodings of each malformed class
+    match &wit[..1] {
+        "m" => {}
+        "x" => tb = tb.witness(Bytes::from(if variant == 0 { vec![1u8, 2, 3] } else { vec![] }).pack()),
+        "b" => tb = tb.witness(if variant == 0 { WitnessArgs::new_builder().build().as_bytes() } else { input_type(vec![0u8; 7 + 2 * ((cap / 2) % 2) as usize]) }.pack()),
+        _ => tb = tb.witness(input_type(pnum(&wit[1..]).to_le_bytes().to_vec()).pack()),
+    }
+    let cell = CellOutput::new_builder().capacity(Capacity::shannons(cap)).lock(script_ht(0, 0)).type_(Some(dao_script(&consensus))).build();
+    let meta = CellMeta {
+        cell_output: cell,
+        out_point: op_of(1, 0),
+        transaction_info: info.map(|b| TransactionInfo { block_hash: dh_header(b).hash(), block_number: b, block_epoch: EpochNumberWithFraction::new(0, 0, 1), index: 1 }),
+        data_bytes: 8,
+        mem_cell_data: Some(Bytes::from(5u64.to_le_bytes().to_vec())),
+        mem_cell_data_hash: None,
+    };
+    let rtx = ResolvedTransaction { transaction: tb.build(), resolved_inputs: vec![meta], resolved_cell_deps: vec![], resolved_dep_groups: vec![] };
+    let dl = Dl { headers: Arc::new(headers) };
+    let r = quiet_catch(|| ckb_dao::DaoCalculator::new(&consensus, &dl).transaction_fee(&rtx));
+    let ans = match &r {
+        Err(()) => "panic".to_string(),
+        Ok(Ok(c)) => format!("ok {}", c.as_u64()),
+        Ok(Err(e)) => {
+            let s = format!("{e:?}");
+            if s.contains("InvalidOutPoint") { "invalid-out-point".into() } else if s.contains("InvalidDaoFormat") { "invalid-dao-format".into() } else if s.contains("InvalidHeader") { "invalid-header".into() } else { "capacity-error".into() }
+        }
+    };
+    out.op(line, &ans);
+    let head = ans.split(' ').next().unwrap().to_string();
+    out.count(&format!("dh:{head}"));
+    out.nontrivial(format!("dh/{head}/{}/{}", &wit[..1], hds.len()));
+    // ---- oracle, independent of the model: the property's reading of a DAO withdrawal
+    let occ: u128 = (8 + 33 + 33 + 8) * 100_000_000;
+    let spec: Result<u128, &str> = (|| {
+        let wh = info.filter(|b| hds.contains(b)).ok_or("invalid-out-point")?;
+        let k = match &wit[..1] {
+            "m" => return Err("invalid-out-point"),
+            "x" | "b" => return Err("invalid-dao-format"),
+            _ => pnum(&wit[1..]),
+        };
+        let dh = *hds.get(k as usize).ok_or("invalid-out-point")?;
+        if dh >= wh {
+            return Err("invalid-out-point");
+        }
+        if (cap as u128) < occ {
+            return Err("capacity-error");
+        }
+        let ar = |n: u64| 10_000_000_000_000_000u128 + n as u128 * 1_000_000_000_000;
+        let w = ((cap as u128 - occ) * ar(wh) / ar(dh)) as u64 as u128 + occ;
+        if w >= 1u128 << 64 { Err("capacity-error") } else { Ok(w) }
+    })();
+    let want = match spec { Ok(w) => format!("ok {w}"), Err(c) => c.to_string() };
+    if ans != want {
+        out.oracle_fail(if spec.is_ok() { "dao-withdraw-rejects-valid" } else if ans.starts_with("ok") { "dao-withdraw-accepts-invalid" } else { "dao-withdraw-error-class" }, &format!("want={want} impl={ans} op={line}"));
+    }
+}
+
+fn gen_dh(rng: &mut Rng) -> String {
+    // a valid withdrawal (ascending header deps, the cell's block = the last one, the witness index
+    // names an earlier one), then — half of the time — one thing pushed to its edge or broken
+    let n = rng.range(2, 4) as usize;
+    let mut hds: Vec<u64> = vec![];
+    while hds.len() < n {
+        let h = rng.range(1, 9);
+        if !hds.contains(&h) {
+            hds.push(h);
+        }
+    }
+    hds.sort();
+    let mut info = hds.last().unwrap().to_string();
+    let mut wit = format!("i{}", rng.below(n as u64 - 1));
+    let occ_w: u64 = 8_200_000_000;
+    let mut cap = occ_w + rng.below(1_000_000_000_000);
+    if rng.chance(1, 2) {
+        match rng.below(12) {
+            0 => info = "n".into(),
+            1 => info = "9".into(),                          // a block that is not among the header deps
+            2 => wit = format!("i{}", n - 1),                 // deposit header = withdrawing header
+            3 => wit = format!("i{}", n),                     // one past the header deps
+            4 => wit = format!("i{}", u64::MAX - rng.below(2)),
+            5 => wit = format!("i{}", (1u64 << 32) + rng.below(2)),
+            6 => wit = rng.pick(&["m", "x", "b"]).to_string(),
+            7 => hds.reverse(),                               // deposit block above the withdrawing block
+            8 => { info = hds[0].to_string(); wit = format!("i{}", n - 1); } // roles swapped
+            9 => cap = occ_w - 1 + rng.below(3),              // at / below the occupied capacity
+            10 => cap = u64::MAX - rng.below(2),              // the `as u64` cast truncates
+            _ => cap = u64::MAX / 2 + rng.below(1000),
+        }
+    }
+    format!("dh {} {} {} {}", join(&hds), info, wit, cap)
+}
+
 pub fn exec_rules(lines: &[String], out: &mut Out) {
     for line in lines {
         let t: Vec<&str> = line.split(' ').collect();
@@ -420,6 +542,7 @@ pub fn exec_rules(lines: &[String], out: &mut Out) {
             "vm" => exec_vm(&t, line, out),
             "dao" => exec_dao(&t, line, out),
             "ctx" => exec_ctx(&t, line, out),
+            "dh" => exec_dh(&t, line, out),
             _ => panic!("rules: bad op {line:?}"),
         }
     }
@@ -541,10 +664,11 @@ fn gen_ctx(rng: &mut Rng) -> String {
 }
 
 pub fn gen_rules(rng: &mut Rng) -> Vec<String> {
-    vec![match rng.below(10) {
+    vec![match rng.below(12) {
         0..=4 => gen_nc(rng),
         5 | 6 => gen_vm(rng),
         7 => gen_dao(rng),
-        _ => gen_ctx(rng),
+        8 | 9 => gen_ctx(rng),
+        _ => gen_dh(rng),
     }]
 }
